@@ -139,6 +139,22 @@ func (c *streamCtx) histShapes(prop string) []func(v int) *histSpec {
 		steps = append(steps, step(30, c.off(), "second scan after expiry"))
 		return hist(init, "cooldown", steps...)
 	}
+	// a removal whose Kubernetes half fails (the instances are gone, a Node object stays) in the very scan whose increase the
+	// cloud accepts; the following scans sit inside the cool-down: whatever the controller remembers about the unfinished removal,
+	// it writes nothing until the cool-down is over
+	shapes["delete-fails-then-cooldown"] = func(v int) *histSpec {
+		init := c.histWorld(3, 200, func(b *gbuild) {
+			b.o.ScaleUpCoolDownPeriod, b.o.MinNodes = "10m", 1
+			b.node(3, 9000, forced())
+			if v%2 == 1 {
+				b.node(4, 9100, forced())
+			}
+		})
+		return hist(init, "delete-fails-then-cooldown",
+			step(0, c.off(), "the force-tainted node's instance is terminated, its Node delete fails; overload: scale-up accepted").withOracle("g1", k8sFail(nil, nil, []string{"g1-n3"})),
+			step(20, c.off(), "inside the cool-down, API server healthy again"),
+			step(200, c.off(), "still inside"))
+	}
 	// pods move between scans onto tainted / force-tainted nodes
 	shapes["pods-move"] = func(v int) *histSpec {
 		if v%2 == 1 { // nothing changes the node count before the pod arrives (a stale pods-per-node map would not notice)
@@ -522,10 +538,10 @@ func (c *streamCtx) histShapes(prop string) []func(v int) *histSpec {
 		return hist(init, "node-size-change", steps...)
 	}
 	order := []string{"taint-wait-reap", "repeated-scale-down", "cooldown", "pods-move", "restart", "dry", "from-zero", "transient-failure",
-		"constructed-earlier", "lister-lag", "cordon-annotate", "external-taints", "two-groups", "double-fault", "cordon-swap", "annotate-late", "annotate-late-real", "annotate-after-failed-removal"}
+		"constructed-earlier", "lister-lag", "cordon-annotate", "external-taints", "two-groups", "double-fault", "cordon-swap", "annotate-late", "annotate-late-real", "annotate-after-failed-removal", "delete-fails-then-cooldown"}
 	byProp := map[string][]string{
 		"C01":  {"taint-wait-reap", "pods-move", "restart", "external-taints", "lister-lag", "cordon-annotate", "annotate-late"},
-		"C02":  {"cooldown", "restart", "from-zero", "dry", "two-groups", "transient-failure"},
+		"C02":  {"cooldown", "delete-fails-then-cooldown", "restart", "from-zero", "dry", "two-groups", "transient-failure"},
 		"C03":  {"constructed-earlier", "repeated-scale-down", "taint-wait-reap", "constructed-earlier", "cordon-annotate", "cordon-swap", "double-fault"},
 		"C04":  {"constructed-earlier", "cooldown", "constructed-earlier", "from-zero", "two-groups"},
 		"C06":  {"constructed-earlier", "repeated-scale-down", "cooldown", "constructed-earlier", "from-zero"},
